@@ -200,7 +200,15 @@ impl BOp {
     }
 }
 
-pub const HISTORY_INPUTS: [&[u8]; 3] = [b"0123456789", b"HELLO WORLD 123", b"hello, world!"];
+// the fourth input is lower case and alphanumeric once upper-cased: mode(Alphanumeric) is part of its histories
+// although the input does not allow it (an overridden setter value must leave no trace, whatever it was)
+pub const HISTORY_INPUTS: [&[u8]; 4] = [b"0123456789", b"HELLO WORLD 123", b"hello, world!", b"https://ex.am/q"];
+
+/// modes in the history alphabet of an input: those it allows, and those its ASCII upper-case form allows
+pub fn history_modes(input: &[u8]) -> Vec<u8> {
+    let up = input.to_ascii_uppercase();
+    (0..3u8).filter(|&m| crate::refmodel::mode_accepts(m as usize, input) || crate::refmodel::mode_accepts(m as usize, &up)).collect()
+}
 
 fn other_case(i: u8) -> PCase {
     match i {
@@ -211,11 +219,7 @@ fn other_case(i: u8) -> PCase {
 
 fn builder_alphabet(input: &[u8]) -> Vec<BOp> {
     let mut a = vec![];
-    for m in 0..3u8 {
-        if crate::refmodel::mode_accepts(m as usize, input) {
-            a.push(BOp::Mode(m));
-        }
-    }
+    a.extend(history_modes(input).into_iter().map(BOp::Mode));
     a.extend([BOp::Ecl(0), BOp::Ecl(3), BOp::Version(1), BOp::Version(2), BOp::Version(7)]);
     a.extend((0..8u8).map(BOp::Mask));
     a.extend([BOp::Build, BOp::Other(0), BOp::Other(1)]);
@@ -256,7 +260,10 @@ fn run_history(input: &[u8], seq: &[BOp], expect: &HashMap<PCase, u64>, states: 
             match op {
                 BOp::Build => {
                     builds += 1;
-                    let got = subject::outcome_digest(&subject::classify(b.build()));
+                    let got = subject::outcome_digest(&match subject::guarded(|| b.build()) {
+                        Ok(r) => subject::classify(r),
+                        Err(msg) => Outcome::Panic(msg),
+                    });
                     let key = PCase { input: input.to_vec(), opts: m, render: Render::None };
                     match expect.get(&key) {
                         Some(&w) if w == got => {}
@@ -584,7 +591,7 @@ fn judge_execution(p: &Program, results: &[Option<Vec<u64>>], expect: &HashMap<P
 
 pub fn run(ctx: &Ctx) -> Collector {
     let col = Collector::new("C14", "model_checking");
-    col.set_rule("(a) E2 builder histories: for 3 inputs (numeric, alphanumeric, bytes) ALL sequences of exactly depth D (quick 4, thorough 5; every shorter history is a prefix) over {mode(each the input allows), ecl(L|H), version(1|2|7), mask(all 8), build, other1, other2} replayed on a fresh real QRBuilder; model state = option tuple; oracle at every build step: digest of (all 177x177 module bytes, size, four fields, or error kind) = digest computed by a fresh builder with the model tuple in a PRISTINE child process (one process per tuple); unrelated builds interleaved must equal their pristine values too. (b) E2 renderer histories: all sequences to depth 4 over {8 SvgBuilder setters, svg(q1|q2), term(q1|q2)} and to depth 3 (thorough 4) over {5 ImageBuilder setters, png(q1|q2)}: every render = render of a fresh renderer built from the model state, the QRCode digest is unchanged after every render, and all distinct (state, symbol) renders are recomputed in reverse order in a fresh child process. (c) E3 schedules: 7 thread programs (2-3 real threads, 1-2 operations each, incl. two threads sharing one &QRBuilder) under the controlled scheduler at the guarded scheduling points: all interleavings with <= b preemptions (iterative bounding; fine point set and coarse point set, bounds in the evidence); oracle: every thread's result = its sequential pristine result; vacuity guard: racy canary outcomes. (d) E3-fine: the same scheduler driven by function-entry events of a second build of fast_qr (opt-level 0, -Zinstrument-mcount, nightly): 5 (thorough 8) thread programs incl. terminal and SVG renders of two sizes in opposite orders; all interleavings with <= 1 preemption at the first k (quick 1, thorough 3) entries of every (function, call site) pair per operation; expectations from fresh single-threaded processes. Supplementary (sampling, not part of the verdict basis): free-running 16-thread pass. non-trivial = a build or render was observed; distinct = distinct observation digests");
+    col.set_rule("(a) E2 builder histories: for 4 inputs (numeric, alphanumeric, bytes, lower-case text that is alphanumeric once upper-cased) ALL sequences of exactly depth D (quick 4, thorough 5; every shorter history is a prefix) over {mode(each the input or its upper-case form allows), ecl(L|H), version(1|2|7), mask(all 8), build, other1, other2} replayed on a fresh real QRBuilder; model state = option tuple; oracle at every build step: digest of (all 177x177 module bytes, size, four fields, or error kind) = digest computed by a fresh builder with the model tuple in a PRISTINE child process (one process per tuple); unrelated builds interleaved must equal their pristine values too. (b) E2 renderer histories: all sequences to depth 4 over {8 SvgBuilder setters, svg(q1|q2), term(q1|q2)} and to depth 3 (thorough 4) over {5 ImageBuilder setters, png(q1|q2)}: every render = render of a fresh renderer built from the model state, the QRCode digest is unchanged after every render, and all distinct (state, symbol) renders are recomputed in reverse order in a fresh child process. (c) E3 schedules: 7 thread programs (2-3 real threads, 1-2 operations each, incl. two threads sharing one &QRBuilder) under the controlled scheduler at the guarded scheduling points: all interleavings with <= b preemptions (iterative bounding; fine point set and coarse point set, bounds in the evidence); oracle: every thread's result = its sequential pristine result; vacuity guard: racy canary outcomes. (d) E3-fine: the same scheduler driven by function-entry events of a second build of fast_qr (opt-level 0, -Zinstrument-mcount, nightly): 5 (thorough 8) thread programs incl. terminal and SVG renders of two sizes in opposite orders; all interleavings with <= 1 preemption at the first k (quick 1, thorough 3) entries of every (function, call site) pair per operation; expectations from fresh single-threaded processes. Supplementary (sampling, not part of the verdict basis): free-running 16-thread pass. non-trivial = a build or render was observed; distinct = distinct observation digests");
     col.assume("E3 (c) preempts at the guarded scheduling points (hook H3), E3-fine (d) at function entries inside the crate (first k per function and call site): a window that contains no call at all is not split; memory-ordering effects weaker than sequential consistency are out of scope (the crate has no atomics)");
     let thorough = ctx.tier.thorough();
 
@@ -622,7 +629,7 @@ pub fn run(ctx: &Ctx) -> Collector {
     let depth = if thorough { 5 } else { 4 };
     let mut needed: Vec<PCase> = vec![other_case(0), other_case(1)];
     for input in HISTORY_INPUTS {
-        for mode in std::iter::once(None).chain((0..3u8).filter(|&m| crate::refmodel::mode_accepts(m as usize, input)).map(Some)) {
+        for mode in std::iter::once(None).chain(history_modes(input).into_iter().map(Some)) {
             for ecl in [None, Some(0), Some(3)] {
                 for version in [None, Some(1), Some(2), Some(7)] {
                     for mask in std::iter::once(None).chain((0..8u8).map(Some)) {
@@ -645,7 +652,7 @@ pub fn run(ctx: &Ctx) -> Collector {
         if let (Some(k), Some(v)) = (c.opts.mask, c.opts.version) {
             let m = c.opts.mode.map(|m| m as usize).unwrap_or_else(|| crate::refmodel::auto_mode(&c.input));
             let e = c.opts.ecl.map(|e| e as usize).unwrap_or(2);
-            if crate::refmodel::fits(v as usize, e, m, c.input.len()) {
+            if crate::refmodel::mode_accepts(m, &c.input) && crate::refmodel::fits(v as usize, e, m, c.input.len()) {
                 if let Outcome::Ok(q) = subject::build(&c.input, &c.opts) {
                     if subject::values(&q) != crate::refmodel::encode_symbol(&c.input, m, e, v as usize, k as usize) {
                         col.violation((0, 0), "C14/differs-from-reference-encoder".into(), format!("build with {:?} differs from R.enc", c.opts), json!({"kind": "build", "input_hex": crate::util::hex(&c.input), "opts": c.opts.to_json()}));
